@@ -775,6 +775,7 @@ def run(ctx, big=False):
     res.extra_private = {'trace_records': TRACE_RECORDS}
     if not ctx.search_mode:
         correspondence(ctx, res, TRACE_RECORDS)
+        block_correspondence(ctx, res, 250 if not thorough else 2500)
     return res
 
 
@@ -819,6 +820,93 @@ def correspondence(ctx, res, trace_records):
     for t in bad[:3]:
         res.disagreements.append(fw.Violation('stage_order', 'the event sequence of %s is not a path of the stage machine: %s' % (t[0][3], t[0][4]),
                                               {'record': t[0][0], 'client': t[0][1], 'call': t[0][2], 'events': t[0][4], 'tags': t[1]}, 'correspondence'))
+
+
+def block_correspondence(ctx, res, n):
+    """Blocks over the real transaction bodies (coq/model/TxnBlock.v w_block) against the implementation: one client runs a
+    program of single calls and transact blocks (inner calls: set/add/delete/pop/touch/incr with inline NEW values over keys
+    that hold inline and file-backed values; nested blocks; a raise after any inner call, caught inside or leaving the block);
+    ConcRun.block_check follows the events of every block as ONE machine call (BEGIN, body, the early file removals of the
+    inner calls, COMMIT / ROLLBACK) and then compares outcomes, rows, counters and, row by row, whether the value file
+    exists -- so the dangling rows of findings C06-F1/F2 are reproduced by the model, not just tolerated."""
+    import schedcorr
+    rng = ctx.rng
+    keys = ['a', 'b', 'c']
+    terms, infos, cases = [], [], []
+    st = {'runs': 0, 'blocks': 0, 'aborted': 0, 'early_removals': 0, 'skipped': {}, 'dangling_rows_after': 0}
+
+    def wcall(tag):
+        op = rng.choice(['set', 'set', 'add', 'delete', 'pop', 'touch', 'incr', 'incr', 'delitem'])
+        c_ = {'op': op, 'key': rng.choice(keys)}
+        if op in ('set', 'add'):
+            c_['value'] = rng.choice([rng.randrange(1, 9), 'v' + tag])
+            c_['expire'] = rng.choice([None, None, 100])
+        if op == 'touch':
+            c_['expire'] = rng.choice([None, 100])
+        if op == 'incr':
+            c_['delta'] = rng.choice([1, 2])
+            c_['default'] = rng.choice([0, 0, None])
+        if op not in ('delitem',):
+            c_['retry'] = True
+        return c_
+    tries = 0
+    while len(terms) < n and tries < 4 * n:
+        tries += 1
+        setup = []
+        for k in keys:
+            x = rng.random()
+            if x < 0.4:
+                setup.append({'op': 'set', 'key': k, 'value': 'S' + k + '#' * 14, 'retry': True})
+            elif x < 0.7:
+                setup.append({'op': 'set', 'key': k, 'value': rng.randrange(1, 5), 'retry': True})
+        prog = []
+        for b in range(rng.choice([1, 1, 2])):
+            if rng.random() < 0.3:
+                prog.append(wcall('p%d' % b))
+            body = [wcall('b%d%d' % (b, i)) for i in range(rng.choice([1, 2, 2, 3]))]
+            blk = [{'op': 'begin_block'}]
+            depth = 1
+            raise_at = rng.choice([None, None] + list(range(len(body))))
+            for i, c_ in enumerate(body):
+                if depth < 3 and rng.random() < 0.25:
+                    blk.append({'op': 'begin_block'})
+                    depth += 1
+                blk.append(c_)
+                if raise_at == i:
+                    blk.append({'op': 'raise_in_block', 'caught': True} if depth >= 2 and rng.random() < 0.4 else {'op': 'raise_in_block'})
+                    if blk[-1].get('caught'):
+                        depth -= 1      # the inner block is left; its end_block is skipped by the interpreter
+                        blk.append({'op': 'end_block'})
+            while depth > 0:
+                blk.append({'op': 'end_block'})
+                depth -= 1
+            prog += blk
+        prog += [{'op': 'get', 'key': k} for k in keys]
+        r = concdrv.run_program(ctx, [prog], [0] * 10, mode='own', settings=SETTINGS, setup=setup, kind='cache', max_steps=4000, sleep_advances=False)
+        term, info = schedcorr.build_block(r, prog, setup, SETTINGS)
+        shutil.rmtree(r['dir'], ignore_errors=True)
+        if term is None:
+            st['skipped'][info] = st['skipped'].get(info, 0) + 1
+            continue
+        st['runs'] += 1
+        st['blocks'] += sum(1 for c_ in prog if c_['op'] == 'begin_block')
+        st['aborted'] += sum(1 for (_, t_) in info['events'] if t_ == 'TRollback')
+        st['early_removals'] += sum(1 for (_, t_) in info['events'] if t_ == 'TEarlyRm')
+        rows, _, files = r['final']
+        st['dangling_rows_after'] += sum(1 for row in rows if row[10] is not None and row[10] not in files)
+        terms.append(term)
+        infos.append(info)
+        cases.append({'check': 'block-correspondence', 'program': prog, 'setup': setup, 'settings': SETTINGS})
+    codes, errors = schedcorr.evaluate('c06bc', terms)
+    for e in errors[:2]:
+        res.disagreements.append(fw.Violation('model-eval', 'block correspondence could not be evaluated: ' + e[-300:], {}, 'correspondence'))
+    bad = [i for i, c_ in enumerate(codes) if c_ != -1]
+    res.traces_validated += len(terms) - len(bad)
+    st['agree'] = len(terms) - len(bad)
+    for i in bad[:3]:
+        res.disagreements.append(fw.Violation('block_correspondence', 'the block model over the real bodies and the implementation differ: '
+                                              + schedcorr.explain(codes[i], infos[i]), dict(cases[i], events=infos[i]['events'], code=codes[i]), 'correspondence'))
+    res.extra['block_correspondence'] = st
 
 
 def search(ctx, broken):
